@@ -140,17 +140,23 @@ func c09BGV(ctx *core.RunCtx, scaleInvariant bool) *c09Scheme {
 	sc.newScale = func(g *core.Xoshiro) rlwe.Scale { return bp.NewScale(1 + g.Next()%1000) }
 	// rgsw ciphertexts for the external product (read-only inputs)
 	rgswEnc := rgsw.NewEncryptor(bp.Parameters, cc.sk)
+	var rgswPool []*rgsw.Ciphertext
 	rgswCt := func(g *core.Xoshiro) *rgsw.Ciphertext {
-		pt := rlwe.NewPlaintext(bp.Parameters, bp.MaxLevel())
+		// at the maximum level, or (second entry of the pool) one level below: the product is then defined at
+		// that level
+		lv := bp.MaxLevel()
+		if len(rgswPool) == 1 && lv > 0 {
+			lv--
+		}
+		pt := rlwe.NewPlaintext(bp.Parameters, lv)
 		pt.IsNTT = true
-		catalog.FillPoly(bp.RingQ(), pt.Value, g)
-		c := rgsw.NewCiphertext(bp.Parameters, bp.MaxLevel(), bp.MaxLevelP(), 0)
+		catalog.FillPoly(bp.RingQ().AtLevel(lv), pt.Value, g)
+		c := rgsw.NewCiphertext(bp.Parameters, lv, bp.MaxLevelP(), 0)
 		if err := rgswEnc.Encrypt(pt, c); err != nil {
 			ctx.Harness("rgsw encrypt: %v", err)
 		}
 		return c
 	}
-	var rgswPool []*rgsw.Ciphertext
 	randVec := func(g *core.Xoshiro) []uint64 {
 		v := make([]uint64, bp.MaxSlots())
 		for i := range v {
@@ -468,6 +474,26 @@ func c09BGV(ctx *core.RunCtx, scaleInvariant bool) *c09Scheme {
 		if err := enc.Decode(out, got); err != nil || hashOperand(got) != hashOperand(v) {
 			ctx.Fail("result", sc.name+"|Decryptor.Decrypt|dirty-output", "decrypting into a plaintext that held other content gives a wrong result (err=%v)", err)
 			return false
+		}
+		// rgsw encryption of a plaintext in each of the four representations (NTT or not, Montgomery or not) on a
+		// used encryptor: the plaintext is an input
+		{
+			pt := rlwe.NewPlaintext(bp.Parameters, bp.MaxLevel())
+			catalog.FillPoly(bp.RingQ(), pt.Value, g)
+			pt.IsNTT, pt.IsMontgomery = g.Next()%2 == 0, g.Next()%2 == 0
+			ph := hashPoly(3, pt.Value)
+			md := *pt.MetaData
+			c := rgsw.NewCiphertext(bp.Parameters, bp.MaxLevel(), bp.MaxLevelP(), 0)
+			st := c09Exec(func() error { return rgswEnc.Encrypt(pt, c) })
+			ctx.Count("oracle.encryptor-input-intact", 1)
+			if st.kind == 2 {
+				ctx.Fail("status", sc.name+"|rgsw.Encryptor.Encrypt|panic", "rgsw Encrypt (plaintext NTT=%v Montgomery=%v) panicked: %s", md.IsNTT, md.IsMontgomery, st.msg)
+				return false
+			}
+			if hashPoly(3, pt.Value) != ph || !md.Equal(pt.MetaData) {
+				ctx.Fail("inputs", sc.name+"|rgsw.Encryptor.Encrypt|plaintext-modified", "rgsw Encrypt modified its plaintext (NTT=%v Montgomery=%v)", md.IsNTT, md.IsMontgomery)
+				return false
+			}
 		}
 		return true
 	}
